@@ -2271,11 +2271,10 @@ def valid_case(c):
                                                     or not size_kind_ok(c["batch_kind"], c["batch"])):
                 return False
             ts = build_tables(c)
-            # a field declared non-nullable must not hold nulls
+            # (a field declared non-nullable may hold nulls: Arrow does not check the data against Field.nullable,
+            # `validate(full=True)` accepts such a table - the column built from the field still says nullable=False)
             for t in ts:
-                for j, col in enumerate(c["cols"]):
-                    if not col.get("nullable", True) and t.column(j).null_count:
-                        return False
+                t.validate(full=True)
             return True
         if k == "big":
             big_case_tables(c)
@@ -3169,6 +3168,16 @@ NAME_LISTS = [
     ["\u0958", "\u0915\u093c"], ["x" * 300, "x" * 301, "x" * 300], ["n" * 5000, "n" * 5000], ["a\x00", "a", "a\x00b"],
     ["\U0010ffff", "\ud7ff", ""], ["stra\u00dfe", "STRASSE", "strasse"],
 ]
+# names that collide with a naming scheme used inside the conversion: decimal positions (what a repeated name is replaced
+# by before the by-name pandas step), pandas' index names, together with repeated names
+INTERNAL_NAME_LISTS = [
+    ["1", "v", "v"], ["v", "v", "0"], ["0", "0"], ["2", "1", "0"], ["0", "1", "2"], ["v", "1", "v"], ["2", "v", "v"], ["v", "0", "v"],
+    ["1", "0", "0"], ["1", "1", "0"], ["3", "2", "1", "0"], ["1", "1", "1", "0"], ["2", "v", "v", "w"], ["01", "1", "1"], ["-0", "0", "0"],
+    ["\u0660", "0", "0"], ["1 ", "1", "1"], ["__index_level_0__", "v", "v"], ["__index_level_0__", "a"], ["v", "__index_level_0__", "v"],
+    ["__index_level_0__", "__index_level_0__"], ["index", "v", "v"], ["level_0", "index", "index"], ["", "0", ""], ["0", "", ""],
+    ["v", "V", "v"], ["v", "v ", "v"], ["None", "nan", "None"],
+]
+INTERNAL_NAMES = ["0", "1", "2", "3", "v", "", "__index_level_0__", "index", "V", "v ", "00", "-1"]
 _NAME_RANGES = [(0x20, 0x7e), (0xa0, 0x24f), (0x300, 0x36f), (0x370, 0x3ff), (0x900, 0x97f), (0x1100, 0x11ff), (0x1e00, 0x1eff),
                 (0x2100, 0x214f), (0x2460, 0x24ff), (0x3040, 0x30ff), (0xac00, 0xd7a3), (0xe000, 0xe0ff), (0xf900, 0xfaff),
                 (0xfb00, 0xfb06), (0xff00, 0xffef), (0x1d400, 0x1d7ff), (0x1f300, 0x1f64f), (0x2f800, 0x2fa1d), (0, 0x1f)]
@@ -3195,8 +3204,12 @@ def rand_name(rng):
 def rand_names(rng, n, plain=("a", "b", "name", "id", "x y")):
     """Column names of an n-column table: mostly plain and distinct, otherwise hard names, with repeats."""
     r = rng.random()
-    if r < 0.55:
+    if r < 0.47:
         return [rng.choice(plain) + str(j) for j in range(n)]
+    if r < 0.55:
+        # names out of a small pool of positional tags / index names: repeats and collisions with a position come by themselves
+        pool = INTERNAL_NAMES[:rng.choice([4, 5, 6, len(INTERNAL_NAMES)])]
+        return [rng.choice(pool) for _ in range(n)]
     if r < 0.70:
         base = rng.choice(NAME_LISTS)
         return [base[j % len(base)] for j in range(n)]
@@ -3220,6 +3233,10 @@ def name_class(names):
         out.append("distinct-only-by-composition/case/blanks")
     if any(x == "" for x in names):
         out.append("empty")
+    if any(x.isdigit() and x.isascii() and int(x) < len(names) and names[int(x)] != x for x in names):
+        out.append("decimal-position-of-another-column")
+    if any(x.startswith("__index_level_") or x in ("index", "level_0") for x in names):
+        out.append("pandas-index-name")
     if any(len(x) >= 256 for x in names):
         out.append("long(>=256)")
     if any(ord(ch) > 0xffff for x in names for ch in x):
@@ -3346,8 +3363,8 @@ def random_iter_case(ctx, quiet_known=False, ext=False):
             cells = [2**53 + 1 + i for i in range(n)]
         has_null = any(c is None for c in cells)
         col = {"name": names[j], "type": t}
-        if not has_null and rng.random() < 0.4:
-            col["nullable"] = False
+        if rng.random() < (0.25 if has_null else 0.4):
+            col["nullable"] = False  # what the FIELD says; whether the cells hold a null is another matter
         cols.append(col)
         columns.append(cells)
     rows = [[columns[j][i] for j in range(ncols)] for i in range(n)]
@@ -3460,6 +3477,12 @@ def seq_corpus():
     one = [[rows]]
     # the same frame converted with every limit in turn, then without one, then observed
     ladder = [["arrow", k] for k in range(1, 8)] + [["arrow", None], ["iter"], ["len"]]
+    # C11-F04: pandas() of a frame with a repeated name where bytes / booleans share their name with a text column
+    for t, cell in (("binary", b"\xaa\xff"), ("bool", True), ("float64", 2.5)):
+        dup = [{"name": "", "type": "int64", "nullable": False}, {"name": "k", "type": t}, {"name": "k", "type": "string"}]
+        for source in ("list", "generator", "from_arrow"):
+            yield {"kind": "seq", "source": source, "cols": dup, "tables": [[[[0, cell, ""], [1, None, "x"]]]],
+                   "ops": [["pandas", 3], ["pandas", None], ["arrow", None]]}
     for source in SEQ_SOURCES:
         yield {"kind": "seq", "source": source, "cols": SEQ_COLS, "tables": one, "ops": ladder}
         yield {"kind": "seq", "source": source, "cols": SEQ_COLS, "tables": [[rows[:1], rows[1:4]], [[]], [rows[4:]]],
@@ -3923,6 +3946,74 @@ def name_cases():
                        "ops": [["arrow", 1], ["names"], ["arrow", None], ["pandas", None]]}
 
 
+def internal_name_cases():
+    """Column names that look like what the conversion uses inside (decimal positions, pandas' index names), with repeated
+    names, the columns of DIFFERENT kinds in every rotation (a cell converted as if it belonged to another column shows):
+    Arrow -> rows (list / generator / single table / DataFrame / the row iterator driven directly), a frame built from
+    Arrow converted back, frame -> Arrow -> frame, a frame used twice."""
+    kinds = ["int64", "string", "bool", "float64"]
+    vals = [lambda i: 2**53 + 1 + i, lambda i: "r%d" % i, lambda i: i % 2 == 0, lambda i: 0.5 + i]
+    for names in INTERNAL_NAME_LISTS:
+        w = len(names)
+        for rot in range(len(kinds) if names in INTERNAL_NAME_LISTS[:12] else 2):
+            ks = [(j + rot) % len(kinds) for j in range(w)]
+            types = [kinds[k_] for k_ in ks]
+            rows = [[None if (i + j) % 4 == 3 and types[j] != "int64" else vals[k_](i) for j, k_ in enumerate(ks)] for i in range(3)]
+            cols = [{"name": n_, "type": t} for n_, t in zip(names, types)]
+            for tables, size, via in (([[rows[:2]], [[]], [rows[2:]]], None, "from_arrow"), ([[rows[:2]], [[]], [rows[2:]]], 2, "generator"),
+                                      ([[rows]], None, "single"), ([[rows[:1], rows[1:]]], None, "DataFrame"),
+                                      ([[rows[:2]], [rows[2:]]], None, "DataFrame.arrow"), ([[]], None, "from_arrow")):
+                yield {"kind": "iter", "cols": cols, "tables": tables, "size": size, "via": via}
+            yield {"kind": "iter", "cols": cols, "tables": [[rows[:2]], [rows[2:]]], "size": None, "via": "iterator", "batch": 1}
+            yield {"kind": "roundtrip", "names": names, "types": types, "rows": rows, "size": None}
+            yield {"kind": "roundtrip", "names": names, "types": types, "rows": rows, "size": 2, "lazy": True}
+            if types[0] == "int64":
+                scols = [dict(c_, nullable=False) if j == 0 else c_ for j, c_ in enumerate(cols)]
+                for source in ("from_arrow", "list"):
+                    yield {"kind": "seq", "source": source, "cols": scols, "tables": [[rows[:1]], [rows[1:]]],
+                           "ops": [["arrow", 1], ["names"], ["arrow", None]]}
+
+
+NULLABILITY_TYPES = ["int64", "int8", "uint64", "float64", "float32", "string", "large_string", "bool", "binary", "timestamp[us]",
+                     "timestamp[us,UTC]", "date32", "decimal128(10,2)", "decimal128(38,0)", "list<int64>", "list<string>"]
+
+
+def nullability_cases(ctx=None):
+    """What a column says about nulls comes from the FIELD, not from the data: every field kind x the field's flag x where the
+    nulls are (the first table / only a later table / nowhere / every cell / no rows at all / the first table has no rows),
+    through every entry point.  A field declared nullable=False that holds a null is a legal Arrow table."""
+    import random
+
+    rng = random.Random(11)
+    k_ = 0
+    for t in NULLABILITY_TYPES:
+        def cell(null, _t=t):
+            return None if null else gen_cell(rng, _t, 0.0, allow_nan=False, nested_null=False)
+        for flag in (False, True):
+            cols = [{"name": "id", "type": "int64", "nullable": False}, {"name": "x", "type": t, "nullable": flag}]
+            for place, layout in (("first", [[True, False], [False]]), ("later", [[False, False], [True]]), ("none", [[False], [False, False]]),
+                                  ("all", [[True], [True, True]]), ("no-rows", [[], []]), ("first-table-empty", [[], [True, False]]),
+                                  ("single-null", [[True]])):
+                i = 0
+                tables = []
+                for tb in layout:
+                    rows = []
+                    for null in tb:
+                        rows.append([i, cell(null)])
+                        i += 1
+                    tables.append([rows])
+                k_ += 1
+                vias = ["from_arrow", ("generator", "DataFrame", "DataFrame.arrow", "tuple")[k_ % 4]] + (["single"] if len(tables) == 1 else [])
+                for via in vias:
+                    yield {"kind": "iter", "cols": cols, "tables": tables, "size": None, "via": via}
+                if place in ("first", "later"):
+                    yield {"kind": "iter", "cols": cols, "tables": tables, "size": 1, "via": "from_arrow"}
+            # the flag of a column is its own: neighbours with the other flag, nulls in the other one
+            both = [{"name": "a", "type": t, "nullable": flag}, {"name": "b", "type": t, "nullable": not flag}]
+            yield {"kind": "iter", "cols": both, "tables": [[[[cell(True), cell(False)], [cell(False), cell(False)]]]], "size": None}
+            yield {"kind": "iter", "cols": both, "tables": [[[[cell(False), cell(True)], [cell(False), cell(False)]]]], "size": None}
+
+
 def _batched(ctx, cases, n=400):
     batch = []
     count = 0
@@ -3958,7 +4049,7 @@ def run(ctx):
 
     marks["before_run"] = round(ctx.budget_s - ctx.time_left(), 2)
     if ctx.tier == "quick":
-        ctx.budget_s = max(ctx.budget_s, 70)  # the exhaustive families take ~42 s; leaves ~28 s for the random ones
+        ctx.budget_s = max(ctx.budget_s, 76)  # the exhaustive families take ~48 s; leaves ~28 s for the random ones
     _batched(ctx, CORPUS)
     # several columns in one schema first: a failure that needs two different decimal types (or two uses of
     # anything cached) is then met in a case that carries both, and its replay fails on its own
@@ -3973,6 +4064,11 @@ def run(ctx):
     mark("corpus+per-type+ext+many-batches+size-objects")
     n_names = _batched(ctx, name_cases())
     mark("names")
+    n_inames = _batched(ctx, internal_name_cases())
+    n_nullab = _batched(ctx, nullability_cases())
+    ctx.note("internal_name_cases", n_inames)
+    ctx.note("nullability_cases", n_nullab)
+    mark("internal-names+nullability")
     _batched(ctx, seq_corpus())
     n_seq = _batched(ctx, exhaustive_seq_cases())
     mark("seq-exhaustive")
